@@ -74,6 +74,48 @@ func runsFor(prop, tier string) []run {
 			{"3blk-aligned-punch", c, pick(5, 7), minutes(pickf(2.5, 20))},
 			{"2blk-mixed-punch", c2, pick(5, 7), minutes(pickf(1, 8))},
 		}
+	case "C10":
+		c := ea.Cfg{Blocks: 1, Alphabet: []string{"W", "Mode:WO", "Mode:RW", "SetRev:7", "SetRev:3", "Close", "Open", "Reload", "SnapA", "ReopenP"},
+			WShapes: [][2]int{{0, 8}, {3, 2}}, RShapes: [][2]int{{0, 8}}, Oracles: []string{"rev", "reopen", "read"}, MaxSnaps: 2}
+		return []run{{"1blk-counter", c, pick(6, 8), minutes(pickf(2, 12))}}
+	case "C16":
+		ws := [][2]int{{0, 8}, {8, 8}, {4, 8}, {16, 8}, {12, 8}, {24, 8}, {20, 12}}
+		c := ea.Cfg{Blocks: 2, Punch: true, Alphabet: []string{"W", "SnapU", "Grow", "Shrink", "ResizeGarbage", "ResizeEmpty", "ReopenP", "Revert", "Rm", "SnapA"},
+			WShapes: ws, RShapes: [][2]int{{0, 16}, {12, 8}}, Oracles: []string{"read", "snapdirect", "snaprevert", "reopen", "chain"}, MaxSnaps: 3, MaxGrow: 2, SysRmOnly: true}
+		c2 := c
+		c2.Punch = false
+		return []run{{"2blk-grow-punch", c, pick(5, 7), minutes(pickf(1.5, 8))}, {"2blk-grow-nopunch", c2, pick(5, 7), minutes(pickf(1.5, 8))}}
+	case "C12":
+		alpha := []string{"W", "SnapU", "SnapA", "SnapDup", "SnapDupOld", "Mark", "Rm", "RmHead", "RmLatest", "RmBase", "RmUnknown", "RmRawHead", "RmRawLatest", "RmRawUnknown",
+			"RmWrongMode", "Revert", "RevertUnknown", "Grow", "Shrink", "ResizeGarbage", "Checkpoint", "CheckpointUnknown", "ReopenP", "Reload"}
+		c := ea.Cfg{Blocks: 2, Alphabet: alpha, WShapes: [][2]int{{0, 8}, {4, 8}}, RShapes: [][2]int{{0, 16}}, Oracles: []string{"chain", "read", "snapdirect", "reopen"}, MaxSnaps: 4, MaxGrow: 1, MaxWrites: 3, SysRmOnly: true}
+		c2 := c
+		c2.InitOps = []string{"W:0:16", "SnapU", "W:0:8", "SnapA", "W:8:8", "SnapA"}
+		c2.MaxSnaps = 5
+		c2.MaxWrites = 5
+		return []run{{"2blk-mgmt", c, pick(5, 6), minutes(pickf(1.8, 10))}, {"2blk-mgmt-from-chain3", c2, pick(4, 5), minutes(pickf(1.5, 10))}}
+	case "C17":
+		alpha := []string{"Close", "Open", "Mode:RW", "Mode:WO", "Mode:junk", "Rebuild:t", "Rebuild:f", "Reload", "W", "R", "Sync", "Unmap", "SnapA", "SetRev:9", "RmGate", "Mark", "Rm"}
+		c := ea.Cfg{Blocks: 2, Alphabet: alpha, WShapes: [][2]int{{0, 8}}, RShapes: [][2]int{{0, 16}}, Oracles: []string{"rev", "read"}, MaxSnaps: 3, MaxWrites: 4,
+			InitOps: []string{"W:0:16", "SnapA", "W:0:8", "SnapA"}}
+		return []run{{"state-machine", c, pick(5, 6), minutes(pickf(2, 10))}}
+	case "C11":
+		cand := ea.Cfg{Blocks: 1, Alphabet: []string{"SnapU", "SnapA", "Mark", "Checkpoint", "CheckpointUnknown"}, Oracles: []string{"candidates"}, MaxSnaps: pick(5, 6)}
+		del := ea.Cfg{Blocks: 2, Punch: true, Alphabet: []string{"W", "SnapU", "SnapA", "Mark", "Checkpoint", "Clean", "RmHead", "RmLatest", "RmBase"},
+			WShapes: [][2]int{{0, 8}, {8, 8}, {0, 16}, {4, 8}}, RShapes: [][2]int{{0, 16}}, Oracles: []string{"candidates", "read", "snapdirect", "snaprevert", "chain"}, MaxSnaps: 5, MaxWrites: 5}
+		d1 := del
+		d1.InitOps = []string{"W:0:16", "SnapA", "W:8:8", "SnapA", "W:0:8", "SnapA", "Checkpoint:2"}
+		d2 := del
+		d2.InitOps = []string{"W:0:16", "SnapU", "W:8:8", "SnapA", "W:0:8", "SnapA", "W:4:8", "SnapU", "Checkpoint:3"}
+		d3 := del
+		d3.Punch = false
+		d3.InitOps = []string{"W:0:8", "SnapA", "W:0:16", "SnapU", "W:8:8", "SnapA", "Mark:1", "W:0:8", "SnapA", "Checkpoint:3"}
+		return []run{
+			{"candidate-filter-all-chains", cand, pick(7, 9), minutes(pickf(1.2, 8))},
+			{"deletions-from-aaa", d1, pick(4, 5), minutes(pickf(1, 6))},
+			{"deletions-from-uaau", d2, pick(4, 5), minutes(pickf(1, 6))},
+			{"deletions-from-a-ur-aa-nopunch", d3, pick(3, 5), minutes(pickf(0.8, 6))},
+		}
 	}
 	return nil
 }
